@@ -781,6 +781,15 @@ func (in *Interp) exec(fr *frame, instr ssa.Instruction) {
 	case *ssa.Slice:
 		fr.env[x] = in.sliceOp(fr, x)
 	case *ssa.Store:
+		if se, isSym := in.get(fr, x.Addr).(*symElem); isSym {
+			i := int(in.concretize(se.idx, "store index"))
+			if i < 0 || i >= len(se.elems) {
+				panic(goPanic{msg: "runtime error: index out of range"})
+			}
+			in.onStore(&se.elems[i])
+			se.elems[i] = copyVal(in.get(fr, x.Val))
+			return
+		}
 		p, ok := in.get(fr, x.Addr).(*Value)
 		if !ok {
 			panic(abort(fmt.Sprintf("Store to %T", in.get(fr, x.Addr))))
@@ -810,6 +819,9 @@ func (in *Interp) unop(fr *frame, x *ssa.UnOp) Value {
 	v := in.get(fr, x.X)
 	switch x.Op {
 	case token.MUL: // load
+		if se, isSym := v.(*symElem); isSym {
+			return in.symLoad(se)
+		}
 		p, ok := v.(*Value)
 		if !ok {
 			panic(abort(fmt.Sprintf("load through %T in %s", v, fr.fn)))
@@ -1538,4 +1550,63 @@ func toInt(t Term, signed bool) Term {
 		return t
 	}
 	return bvToInt(t, signed)
+}
+
+// symLoad reads elems[idx] for a symbolic idx: bounds check (fork), then an ite chain.
+func (in *Interp) symLoad(se *symElem) Value {
+	n := len(se.elems)
+	if se.idx.W >= 63 || uint64(n) < uint64(1)<<uint(se.idx.W) {
+		inr := bvCmp("<", se.idx, mkBV(se.idx.W, uint64(n)), false)
+		if !in.branch(inr) {
+			panic(goPanic{msg: "runtime error: index out of range"})
+		}
+	}
+	if n == 0 {
+		panic(goPanic{msg: "runtime error: index out of range"})
+	}
+	// group equal consecutive values to keep the chain short
+	idx := in.nameTerm(se.idx)
+	r := copyVal(se.elems[n-1])
+	for i := n - 2; i >= 0; i-- {
+		r = in.iteValue(tEq(idx, mkBV(idx.W, uint64(i))), copyVal(se.elems[i]), r)
+	}
+	if t, ok := r.(Term); ok {
+		return in.nameTerm(t)
+	}
+	return r
+}
+
+// nameTerm gives a large term a name in the solver (define-fun), so that later uses stay small.
+func (in *Interp) nameTerm(t Term) Term {
+	if t.C || t.IsV || len(t.E) < 200 {
+		return t
+	}
+	name := quoteSym(in.freshName("t"))
+	in.sess.Cmd("(define-fun " + name + " () " + t.sortName() + " " + t.E + ")")
+	nt := t
+	nt.E = name
+	nt.Cat = nil
+	return nt
+}
+
+func (in *Interp) iteValue(c Term, a, b Value) Value {
+	switch x := a.(type) {
+	case Term:
+		return tIte(c, x, b.(Term))
+	case Struct:
+		y := b.(Struct)
+		out := make(Struct, len(x))
+		for i := range x {
+			out[i] = in.iteValue(c, x[i], y[i])
+		}
+		return out
+	case Array:
+		y := b.(Array)
+		out := make(Array, len(x))
+		for i := range x {
+			out[i] = in.iteValue(c, x[i], y[i])
+		}
+		return out
+	}
+	panic(abort(fmt.Sprintf("symbolic index into elements of type %T", a)))
 }
